@@ -19,17 +19,19 @@ struct item *P[NI];
 #define B_INS 1
 #define B_DEL 2
 #define B_VIS 3
+#define B_INSD 4   /* insertion completed */
+#define B_DELD 5   /* removal completed */
 static inline struct item *mk(int i) { struct item *it = (struct item *)malloc(sizeof(struct item)); it->payload = 100 + i; P[i] = it; return it; }
 static inline int member(int i) { return rt_bget(B_INS, i) != 0 && rt_bget(B_DEL, i) == 0; }
 void prologue(void) {
 #if HL
   CDS_INIT_HLIST_HEAD(&L);
-  struct item *b = mk(1); cds_hlist_add_head_rcu(&b->node, &L); rt_bset(B_KEY, 1, 20); rt_bset(B_INS, 1, rt_stamp());
-  struct item *a = mk(0); cds_hlist_add_head_rcu(&a->node, &L); rt_bset(B_KEY, 0, 10); rt_bset(B_INS, 0, rt_stamp());
+  struct item *b = mk(1); cds_hlist_add_head_rcu(&b->node, &L); rt_bset(B_KEY, 1, 20); rt_bset(B_INS, 1, rt_stamp()); rt_bset(B_INSD, 1, rt_stamp());
+  struct item *a = mk(0); cds_hlist_add_head_rcu(&a->node, &L); rt_bset(B_KEY, 0, 10); rt_bset(B_INS, 0, rt_stamp()); rt_bset(B_INSD, 0, rt_stamp());
 #else
   CDS_INIT_LIST_HEAD(&L);
-  struct item *a = mk(0); cds_list_add_tail_rcu(&a->node, &L); rt_bset(B_KEY, 0, 10); rt_bset(B_INS, 0, rt_stamp());
-  struct item *b = mk(1); cds_list_add_tail_rcu(&b->node, &L); rt_bset(B_KEY, 1, 20); rt_bset(B_INS, 1, rt_stamp());
+  struct item *a = mk(0); cds_list_add_tail_rcu(&a->node, &L); rt_bset(B_KEY, 0, 10); rt_bset(B_INS, 0, rt_stamp()); rt_bset(B_INSD, 0, rt_stamp());
+  struct item *b = mk(1); cds_list_add_tail_rcu(&b->node, &L); rt_bset(B_KEY, 1, 20); rt_bset(B_INS, 1, rt_stamp()); rt_bset(B_INSD, 1, rt_stamp());
 #endif
   rt_gset(60, 9); rt_gset(61, 21);     /* next head key (decreasing), next tail key (increasing) */
 }
@@ -46,6 +48,7 @@ static inline void step(int s) {
 #else
     cds_list_add_rcu(&it->node, &L);
 #endif
+    rt_bset(B_INSD, n, rt_stamp());
     rt_cover(1, "updater added at head");
   } else if (op == 1) {                  /* add at tail (hlist: head again) */
 #if HL
@@ -55,6 +58,7 @@ static inline void step(int s) {
     struct item *it = mk(n); rt_bset(B_KEY, n, (uint32_t)rt_gget(61)); rt_gset(61, rt_gget(61) + 1); rt_bset(B_INS, n, rt_stamp());
     cds_list_add_tail_rcu(&it->node, &L);
 #endif
+    rt_bset(B_INSD, n, rt_stamp());
   } else if (op == 2) {                  /* delete k */
     rt_bset(B_DEL, k, rt_stamp());
 #if HL
@@ -62,16 +66,18 @@ static inline void step(int s) {
 #else
     cds_list_del_rcu(&P[k]->node);
 #endif
+    rt_bset(B_DELD, k, rt_stamp());
     retire((int)k);
     rt_cover(1, "updater deleted a node and freed it after the grace period");
   } else {                               /* replace k by n (hlist has no replace: delete + add head) */
 #if HL
-    rt_bset(B_DEL, k, rt_stamp()); cds_hlist_del_rcu(&P[k]->node); retire((int)k);
+    rt_bset(B_DEL, k, rt_stamp()); cds_hlist_del_rcu(&P[k]->node); rt_bset(B_DELD, k, rt_stamp()); retire((int)k);
     struct item *it = mk(n); rt_bset(B_KEY, n, (uint32_t)rt_gget(60)); rt_gset(60, rt_gget(60) - 1); rt_bset(B_INS, n, rt_stamp());
-    cds_hlist_add_head_rcu(&it->node, &L);
+    cds_hlist_add_head_rcu(&it->node, &L); rt_bset(B_INSD, n, rt_stamp());
 #else
     struct item *it = mk(n); rt_bset(B_KEY, n, rt_bget(B_KEY, k)); rt_bset(B_INS, n, rt_stamp()); rt_bset(B_DEL, k, rt_stamp());
     cds_list_replace_rcu(&P[k]->node, &it->node);
+    rt_bset(B_INSD, n, rt_stamp()); rt_bset(B_DELD, k, rt_stamp());
     retire((int)k);
     rt_cover(1, "updater replaced a node");
 #endif
@@ -105,9 +111,9 @@ void reader(void) {
 void epilogue(void) {
   uint32_t rs = (uint32_t)rt_gget(51), re = (uint32_t)rt_gget(52);
   for (int i = 0; i < NI; i++) {
-    uint32_t ins = rt_bget(B_INS, i), del = rt_bget(B_DEL, i);
-    int resident = ins != 0 && ins < rs && (del == 0 || del > re);
-    int ever = ins != 0 && ins < re && (del == 0 || del > rs);
+    uint32_t ins = rt_bget(B_INS, i), insd = rt_bget(B_INSD, i), del = rt_bget(B_DEL, i), deld = rt_bget(B_DELD, i);
+    int resident = insd != 0 && insd < rs && (del == 0 || del > re);     /* insertion completed before, removal not started before the end */
+    int ever = ins != 0 && ins < re && (deld == 0 || deld > rs);         /* may have been linked at some instant of the traversal */
     if (resident) rt_assert(rt_bget(B_VIS, i) == 1, "a node in the list for the whole traversal is visited exactly once");
     if (rt_bget(B_VIS, i)) rt_assert(ever, "only nodes that were in the list at some moment of the traversal are visited");
   }
